@@ -41,6 +41,8 @@ trap 'cleanup; rm -f "$LOCK"' EXIT
 cleanup
 git -C /repo worktree add -q --detach "$WT" HEAD || { echo "cannot create worktree"; exit 2; }
 mkdir -p "$OUT"
+# One minimised report per change is enough here, and shrinking may stop early (the checks' own defaults are 6 and 180 s).
+export VERIF_TRIAGE_MAX="${VERIF_TRIAGE_MAX:-1}" VERIF_TRIAGE_SECS="${VERIF_TRIAGE_SECS:-30}"
 
 declare -a PATCHES=()
 for f in "$ROOT"/selfcheck/mutants/*.patch "$ROOT"/seeded/*/patch.diff; do
